@@ -1160,9 +1160,15 @@ fn finish(
     if req["r10c"].as_bool().unwrap_or(false) {
         for (k, (fs, ps, pe, es, ee, bo)) in col.plain_loops.iter().enumerate() {
             let x_txt = src[*ps..*pe].to_string();
-            cx.rep(*fs, *es, &format!("let vx_seq_{} = ", k));
-            cx.ins(*ee, &format!(".collect(); for vx_i_{k} in 0..vx_seq_{k}.len()", k = k), false);
-            cx.ins(*bo, &format!(" let {} = vx_seq_{}[vx_i_{}];", x_txt, k, k), false);
+            let take = req["r10c_take"].as_bool().unwrap_or(false);
+            cx.rep(*fs, *es, &format!("let {}vx_seq_{} = ", if take { "mut " } else { "" }, k));
+            cx.ins(*ee, &format!(".collect(); let vx_n_{k} = vx_seq_{k}.len(); for vx_i_{k} in 0..vx_n_{k}", k = k), false);
+            if take {
+                // owned, non-Copy items: move the i-th item out (vx_take leaves the slot unspecified; it is never read again)
+                cx.ins(*bo, &format!(" let {} = vx_take(&mut vx_seq_{}, vx_i_{});", x_txt, k, k), false);
+            } else {
+                cx.ins(*bo, &format!(" let {} = vx_seq_{}[vx_i_{}];", x_txt, k, k), false);
+            }
             cx.count("R10c(for x in ITER -> let items = ITER.collect(); for i in 0..items.len() { let x = items[i]; .. })");
         }
     }
